@@ -31,7 +31,7 @@
    of the harness in the thorough tier, not proved.  FIFO per producer-consumer pair holds only
    without processIf/processUntil put-back (see DESIGN.md, P10). *)
 From Coq Require Import List Arith NArith ZArith Bool Permutation.
-From EV Require Import QConc QConcProofs QConcInv QConcWake QConcFuel.
+From EV Require Import QConc QConcProofs QConcInv QConcWake QConcFuel QConcOrder.
 Import ListNotations.
 
 Theorem C06_every_event_in_exactly_one_place : forall progs schedule fuel,
@@ -86,6 +86,28 @@ Proof.
   intros progs schedule n u th cfg. apply no_mutex_deadlock. apply wake_invariant_unconditional.
 Qed.
 Print Assumptions C06_no_call_deadlocks.
+
+(* ORDERING CLAUSE — the part that holds (QConcOrder.v, on the generic frame QConcGen.v).  For every set of thread programs and
+   every schedule: in every reachable configuration of an execution in which no processIf / processUntil has put events
+   back (g_putbacks = 0), the events thread t has dispatched (dby t, oldest first) and the events takeEvent has handed to
+   thread t (tby t) are subsequences of the order in which events entered queueList (rev g_settled).  One producer's
+   events enter the list in its program order (it makes one enqueue call at a time), so whatever one thread consumes of
+   one producer's events it consumes in enqueue order.  Invariant behind it: the list is a FIFO — entry order = removed ++
+   queueList — and for every thread, what it has dispatched followed by what it holds undispatched is a subsequence of
+   `removed`.  (The relative order of one thread's takes and dispatches is not covered: two separate ledgers.) *)
+Theorem C06_order_without_putbacks : forall progs schedule fuel,
+  let cfg := reached progs schedule fuel in
+  g_putbacks (shs cfg) = 0 ->
+  forall t th, nth_error (ths cfg) t = Some th ->
+    subseq (dby t (shs cfg)) (rev (g_settled (shs cfg))) /\ subseq (tby t (shs cfg)) (rev (g_settled (shs cfg))).
+Proof. exact order_of_dispatch_and_take. Qed.
+Print Assumptions C06_order_without_putbacks.
+
+Example C06_order_example :
+  let cfg := reached [[AEnqueue 1 11%Z; AEnqueue 1 13%Z; AEnqueue 1 15%Z]; [AProcess; AProcess]]
+                     [0; 0; 0; 0; 0; 0; 0; 0; 0; 0; 0; 0; 0; 1; 1; 1; 1; 1; 1; 1; 1; 0; 0; 0; 0; 0; 0; 1; 1; 1; 1; 1; 1; 1; 1; 1] 400 in
+  g_putbacks (shs cfg) = 0 /\ map cea (dby 1 (shs cfg)) = [11%Z; 13%Z; 15%Z] /\ map cea (rev (g_settled (shs cfg))) = [11%Z; 13%Z; 15%Z].
+Proof. exact order_example. Qed.
 
 (* ORDERING CLAUSE — REFUTED in the presence of another thread's processIf / processUntil (known finding P10).
    Thread 0 enqueues 11, 13, 15.  Thread 1 calls processIf with a predicate that declines everything: it takes 11 and 13
